@@ -418,7 +418,7 @@ PROPS = {
                   lambda prog, tier: idxclass.run(prog, scope_units=("mps_mpq.c", "rawlp_mpq.c")),
                   lambda prog, tier: sentinel.run(prog), lambda prog, tier: appendinit.run(prog), lambda prog, tier: appendinit.run_repack(prog), lambda prog, tier: appendinit.run_remap(prog, shared_eff(prog)), lambda prog, tier: fmt.run_args(prog), lambda prog, tier: rescan.run(prog), lambda prog, tier: defaults.run(prog),
                   lambda prog, tier: fullscan.run(prog, ["mpq_ILLwrite_mps"], ("mps_mpq.c",), floor=6),
-                  lambda prog, tier: fullscan.run_rowfilter(prog), lambda prog, tier: trunc.run(prog)],
+                  lambda prog, tier: fullscan.run_rowfilter(prog), lambda prog, tier: fullscan.run_rangepair(prog), lambda prog, tier: trunc.run(prog)],
         "technique": "lossy-conversion sink census over writer/reader closures; table agreement (section names, bound mnemonics, row-type "
                      "letters, markers) between the MPS writer's format literals and the reader's tables / switch cases / strcmp operands; "
                      "must-pass analysis of section emitters before ENDATA; index-space typing",
@@ -727,7 +727,7 @@ _ADD = {
                            "of the shrunk space (the SOS sets the writer prints hold structural column numbers). (R-FMTARGS) every conversion of a literal "
                            "format handed to a printf-like routine (the writers' ILLprint_report among them) is given an argument of its category - the "
                            "exporter records the promoted type of every variadic argument, so a %g given the rational type is seen in the rational "
-                           "instantiation."},
+                           "instantiation. (R-RANGEPAIR) the emission of a RANGES record is governed by a test of the row's sense, not by the range value alone."},
     "C10": {"technique": "; all-paths constant propagation through the '/' case of the exact literal scanner; flag-state dataflow (set-of-tuples) for "
                          "stores into the raw LP's bounds; machine-word sink census with digit-bound discharge",
             "explanation": " (R-RESCAN) the denominator of p/q is scanned from the same state as the numerator; (R-EXPLICITBND) a bound given in the "
